@@ -16,6 +16,8 @@ import vlib
 
 MISSING = -99999          # a value that can never agree: marks a row whose source could not be found
 
+DIM_QUERIES = {"numCols", "numRows", "numColsRational", "numRowsRational"}
+
 DOC_PHRASES = [("upper bound", "ON_UPPER"), ("lower bound", "ON_LOWER"), ("fixed to its identical bounds", "FIXED"),
                ("free and fixed to zero", "ZERO"), ("is basic", "BASIC"), ("nothing known", "UNDEFINED")]
 
@@ -44,6 +46,9 @@ def scrape_interface():
             i += 1
         body = body_src[m.end():i]
         members = re.findall(r"\bso\s*->\s*(\w+)\s*\(", body)
+        # pure dimension queries used to size a temporary are not part of a wrapper's effect
+        if len(members) > 1:
+            members = [x for x in members if x not in DIM_QUERIES] or members
         defined.append((m.group(1), members))
     # documented basis-status codes (header comments)
     doc = {}
